@@ -1047,6 +1047,16 @@ func (db *DB) reWriteData(pendingMergeEntries []*Entry) error {
 		db.isMerging = false
 		return err
 	}
+	// The segment that was active until now is sealed here. It has to be
+	// released like rotateActiveFile releases it: otherwise every segment a
+	// Merge rewrites leaks a file descriptor (FileIO) or a mapping (MMap),
+	// and a long-running process ends up unable to open or map any file.
+	if db.ActiveFile != nil && db.ActiveFile.rwManager != nil {
+		if !db.opt.SyncEnable && db.opt.RWMode == MMap {
+			db.ActiveFile.rwManager.Sync()
+		}
+		db.ActiveFile.rwManager.Close()
+	}
 	db.ActiveFile = dataFile
 	db.MaxFileID++
 	// the index entries written by the commit below must point at this file
